@@ -50,14 +50,15 @@ def make_pconfig(options, name, **over):
 
 class Cfg:
     """one dispatcher configuration = one `case outdisp` line"""
-    __slots__ = ('capture', 'log', 'strip', 'channel', 'oev', 'eev')
+    __slots__ = ('capture', 'log', 'strip', 'channel', 'oev', 'eev', 'mainlog')
 
-    def __init__(self, capture=0, log=1, strip=0, channel='stdout', oev=0, eev=0):
+    def __init__(self, capture=0, log=1, strip=0, channel='stdout', oev=0, eev=0, mainlog=0):
         self.capture, self.log, self.strip, self.channel, self.oev, self.eev = capture, log, strip, channel, oev, eev
+        self.mainlog = mainlog      # the daemon runs at loglevel=debug: child output is copied to its own log (log_to_mainlog)
 
     def line(self):
         return 'case outdisp capture=%d log=%d strip=%d channel=%s oev=%d eev=%d' % (
-            self.capture, self.log, self.strip, self.channel, self.oev, self.eev)
+            self.capture, self.log, self.strip, self.channel, self.oev, self.eev) + (' mainlog=1' if self.mainlog else '')
 
     def events_on(self):
         return self.oev if self.channel == 'stdout' else self.eev
@@ -83,7 +84,8 @@ class Run:
             events.subscribe(events.Event, self.seen.append)
         else:
             self.seen = shared_seen          # several dispatchers observed through one subscription
-        self.opt = Seam(strip_ansi=bool(cfg.strip))
+        self.opt = Seam(strip_ansi=bool(cfg.strip), loglevel=10 if getattr(cfg, 'mainlog', 0) else 20)     # DEBG / INFO
+        self.raised = None
         self.path = os.path.join(scratch, 'child%s-%s.log' % (label, cfg.channel))
         other = os.path.join(scratch, 'child%s-other.log' % label)
         for p in (self.path, other):
@@ -113,7 +115,16 @@ class Run:
         ev = self.events_mod
         n0 = len(self.seen)
         self.opt.pending[self.fd] = [chunk]
-        self.disp.handle_read_event()
+        raised = None
+        try:
+            self.disp.handle_read_event()
+        except Exception as e:
+            # what runforever() does with an exception out of a dispatcher: handle_error() (logs, closes the dispatcher)
+            raised = self.raised = type(e).__name__
+            try:
+                self.disp.handle_error()
+            except Exception:
+                pass
         with open(self.path, 'rb') as f:
             f.seek(self.off)
             new = f.read()
@@ -136,6 +147,9 @@ class Run:
         r = self.disp.readable()
         closed_now = self.was_readable and not r
         self.was_readable = r
+        if raised:
+            # `closed` after an exception is handle_error()'s doing, not the dispatcher's own decision
+            return 'log:%s | plog:%s | comm:%s | closed:0 | raised:%s' % (hexs(new), ','.join(plogs), ','.join(comms), raised)
         return 'log:%s | plog:%s | comm:%s | closed:%d' % (hexs(new), ','.join(plogs), ','.join(comms), 1 if closed_now else 0)
 
     def other_log(self):
@@ -272,7 +286,9 @@ def run_case(cfg, chunks, scratch, eof=True):
     try:
         for c in chunks:
             ops.append('read ' + hexs(c)); lines.append(run.step(c))
-        if eof:
+            if run.raised:
+                break
+        if eof and not run.raised:
             ops.append('read -'); lines.append(run.step(b''))
     finally:
         run.finish()
